@@ -23,6 +23,13 @@ char* TYPES_FIND(char* map, char* key) { table_read(map); if (nondet_u8() & 1) r
 INS_AGG MAP_INSERT(char* map, char* value) { table_write(map); INS_AGG r; memset(&r, 0, sizeof r); a_node.key.p = a_node.key.buf; struct ins_ret x = { (char*)&a_node, (uint8_t)(nondet_u8() & 1) }; memcpy(&r, &x, sizeof x); return r; }
 INS_AGG TYPES_INSERT(char* map, char* value) { table_write(map); INS_AGG r; memset(&r, 0, sizeof r); struct ins_ret x = { (char*)&a_node, (uint8_t)(nondet_u8() & 1) }; memcpy(&r, &x, sizeof x); return r; }
 INS_AGG MAP_INSERT_OR_ASSIGN(char* map, char* key, char* val) { table_write(map); INS_AGG r; memset(&r, 0, sizeof r); struct ins_ret x = { (char*)&a_node, (uint8_t)(nondet_u8() & 1) }; memcpy(&r, &x, sizeof x); return r; }
+/* function tables (QuickFlatMap = vector of pairs): find/count are stubs that assert the lock mode; an element handed out has a null shared_ptr / undefined value */
+#ifdef QFM_FIND_FUNS
+static struct { struct sso_string key; struct BV second; } qf_elem;
+char* QFM_FIND_FUNS(char* map, char* key, uint64_t hint) { table_read(map); if (nondet_u8() & 1) return *(char**)(map + 8); /* end() */ qf_elem.key.p = qf_elem.key.buf; return (char*)&qf_elem; }
+uint64_t QFM_COUNT_FUNS(char* map, char* key) { table_read(map); return nondet_u8() & 1; }
+char* QFM_FIND_BOXED(char* map, char* key, uint64_t hint) { table_read(map); if (nondet_u8() & 1) return *(char**)(map + 8); qf_elem.key.p = qf_elem.key.buf; return (char*)&qf_elem; }
+#endif
 /* cuts */
 void F__ZN10chaiscript9exception16global_non_constC2Ev(char* s) { }
 void F__ZN10chaiscript9exception19name_conflict_errorC2ERKNSt7__cxx1112basic_stringIcSt11char_traitsIcESaIcEEE(char* s, char* n) { }
@@ -35,6 +42,9 @@ int main(void) {
   static struct bv_data objd; D_FLAGS(&objd) = nondet_u32() & (TIF_const | TIF_arithmetic | TIF_reference);
   struct BV obj = { (char*)&objd, 0 }; static struct sso_string name; name.p = name.buf; name.n = 1; name.buf[0] = (char)nondet_u8(); name.buf[1] = 0;
   struct BV out = { 0, 0 }; static char ti[SZ_Type_Info];
+#if ENTRY >= 7
+  void E_GET_FUNCTION(char*, char*, uint64_t, char*, uint64_t); uint8_t E_FUNCTION_EXISTS(char*, uint64_t, char*); void E_GET_FUNCTION_OBJECT(char*, char*, char*);
+#endif
 #if ENTRY == 1
   E_ADD_GLOBAL_CONST(engine, (char*)&obj, (char*)&name);
 #elif ENTRY == 2
@@ -47,6 +57,12 @@ int main(void) {
   E_ADD_TYPE(engine, ti, (char*)&name);
 #elif ENTRY == 6
   { static char tiout[SZ_Type_Info]; char q[1] = { (char)nondet_u8() }; E_GET_TYPE(tiout, engine, 1, q, nondet_u8() & 1); }
+#elif ENTRY == 7
+  { static struct { uint64_t idx; struct BV funs; } res; char q[1] = { (char)nondet_u8() }; E_GET_FUNCTION((char*)&res, engine, 1, q, nondet_u64()); }
+#elif ENTRY == 8
+  { char q[1] = { (char)nondet_u8() }; (void)E_FUNCTION_EXISTS(engine, 1, q); }
+#elif ENTRY == 9
+  E_GET_FUNCTION_OBJECT((char*)&out, engine, (char*)&name);
 #else
 #error "unknown ENTRY"
 #endif
